@@ -7,6 +7,7 @@ pub mod c03;
 pub mod c05;
 pub mod c06;
 pub mod c07;
+mod c07_tree;
 pub mod c08;
 pub mod c09;
 pub mod c10;
